@@ -3,5 +3,6 @@ CONSTANTS
   C0KiB = 8192
   C0ContainerKiB = 49152
   C1KiB = 1
+  DepFactor = 3
 POSTCONDITION TraceAccepted
 CHECK_DEADLOCK FALSE
